@@ -53,6 +53,17 @@ func (h *Heaper) closedness(arr *Term, f Family, ctr string) {
 	if f.Leaf.T == nil {
 		return
 	}
+	if kindOf(f.Leaf.T) == KSlice && (strings.HasSuffix(f.Leaf.Path, ".len") || strings.HasSuffix(f.Leaf.Path, ".off")) {
+		// slice headers stored in existing objects have non-negative, bounded length and offset
+		sel := fmt.Sprintf("(select %s r!c)", arr.S)
+		bind := "((r!c Int))"
+		if f.Root == RElem {
+			sel = fmt.Sprintf("(select (select %s r!c) i!c)", arr.S)
+			bind = "((r!c Int) (i!c (_ BitVec 64)))"
+		}
+		h.vc.assertGlobalOrLine(fmt.Sprintf("(forall %s (! (=> (<= r!c %s) (and (bvsle (_ bv0 64) %s) (bvslt %s (_ bv1099511627776 64)))) :pattern (%s)))", bind, ctr, sel, sel, sel), ctr == "ctr0")
+		return
+	}
 	isRef := false
 	switch kindOf(f.Leaf.T) {
 	case KPtr, KMap:
